@@ -1,7 +1,7 @@
 (* C01 - DAP2 end-to-end fidelity: what the server holds is what the client reads.
    serve = DDS text ++ "\nData:\n" ++ encoder model ; receive = cut at the first separator, decoder
    model.  Built on the codec theorems of C05. *)
-From PydapV Require Import Base Words Xdr XdrProofs Readers E2EProofs.
+From PydapV Require Import Base Words Xdr XdrProofs Readers E2EProofs Enclosed EnclosedProofs.
 
 Theorem C01_end_to_end : forall dds d v,
   wf d v -> no_early dds ->
@@ -38,4 +38,30 @@ Example C01_ex :
 Proof.
   cbn zeta. split; [cbn; repeat split; try lia; repeat constructor; lia|]. split; [reflexivity|].
   eexists. split; vm_compute; reflexivity.
+Qed.
+
+(* "for every variable": a variable INSIDE a sequence - an inner sequence, a column of an inner sequence - read on its own
+   (ds["outer"]["inner"]).  The response nests it in the records of the k enclosing sequences (declaration  wrap k d);
+   the client's decoder for such reads (unpack_enclosed, model/Enclosed.v) reads back what pydap's encoder wrote, for every
+   declaration d, every nesting depth k, every number of records at every level - one item per record of the outermost sequence. *)
+Theorem C01_enclosed_variable_read_alone : forall k d v rest,
+  wf (wrap k d) v ->
+  exists b, dods (wrap k d) v = Some b /\ unpack_enclosed k d (b ++ rest) = Some (v, rest).
+Proof. exact enclosed_inverts_dods. Qed.
+Print Assumptions C01_enclosed_variable_read_alone.
+
+Theorem C01_enclosed_one_item_per_record : forall k d rows,
+  wf (wrap (S k) d) (VSeq rows) -> exists xs, items (VSeq rows) = Some xs /\ rows = map (fun x => [x]) xs.
+Proof. exact items_total. Qed.
+Print Assumptions C01_enclosed_one_item_per_record.
+
+Example C01_ex_enclosed :
+  let d := DSeq [DBase TInt32 None; DBase TString None] in              (* ds["n"]["inner"] : inner{u, s} inside n *)
+  let v := VSeq [[VSeq [[VBase [SInt 10]; VBase [SStr (s2l "ab")]]; [VBase [SInt 12]; VBase [SStr []]]]]; [VSeq []]] in
+  wf (wrap 1 d) v /\ exists b, dods (wrap 1 d) v = Some b /\ unpack_enclosed 1 d b = Some (v, []) /\
+  items v = Some [VSeq [[VBase [SInt 10]; VBase [SStr (s2l "ab")]]; [VBase [SInt 12]; VBase [SStr []]]]; VSeq []].
+Proof.
+  cbn zeta. split.
+  - cbn. repeat split; try lia; repeat constructor; try lia; eexists; (split; [reflexivity|]); cbn; lia.
+  - eexists. split; [vm_compute; reflexivity|]. split; vm_compute; reflexivity.
 Qed.
